@@ -344,6 +344,14 @@ def family_fracint():
     in positive / negative / reified context"""
     exprs = [('x', X), ('x+b', ('add', X, B)), ('2x-b', ('sub', ('mul', N(2), X), B)), ('abs(x)', ('abs', X)), ('y', Y), ('x+y', ('add', X, Y))]
     consts = [0.5, 1.5, -0.5, 1.0, -1.25, 0.25]
+    # a fractional constant next to integer arguments: the result of max / min / if-then-else is not integer-valued
+    for nm, e in (('max(x,2.5)', ('max', X, N(2.5))), ('min(x,1.5)', ('min', X, N(1.5))), ('max(x,b,0.5)', ('max', X, B, N(0.5))),
+                  ('if b then 2.5 else x', ('if', ('ge', B, N(1)), N(2.5), X)), ('if b then x else -0.5', ('if', ('ge', B, N(1)), X, N(-0.5))),
+                  ('min(x,-1.5)+b', ('add', ('min', X, N(-1.5)), B))):
+        yield ('fracint %s min-obj' % nm, Model(V3, obj=('min', e, {})))
+        yield ('fracint %s max-obj' % nm, Model(V3, obj=('max', e, {})))
+        yield ('fracint %s == y' % nm, Model(V3, acons=[(('sub', e, Y), {}, 0.0, 0.0)]))
+        yield ('fracint %s <= 1' % nm, Model(V3, acons=[(e, {}, -INF, 1.0)]))
     for en, e in exprs:
         for c in consts:
             for op in ('lt', 'le', 'eq', 'ge', 'gt', 'ne'):
